@@ -174,6 +174,20 @@ func (c *FnCtx) heapSet(st *State, name, sort, term string) {
 
 // havocAll forgets everything about the heap (used for calls whose effects are unknown).
 func (c *FnCtx) havocAll(st *State) {
+	// private variables (see privateVar) keep the value they have now
+	var keep []frozenCell
+	for _, pc := range c.privateCells {
+		if c.loopHeadHavoc {
+			break
+		}
+		cur := c.smt.define("privcell", arrayElemSort(pc.sort), sel(c.heapGet(st, pc.heap, pc.sort), pc.ref))
+		keep = append(keep, frozenCell{pc.heap, pc.sort, pc.ref, cur})
+	}
+	defer func() {
+		for _, fc := range keep {
+			c.smt.assume(eq(sel(c.heapGet(st, fc.heap, fc.sort), fc.ref), fc.val), "a variable that never leaves the function keeps its value across the call")
+		}
+	}()
 	c.smt.nextID++
 	st.epoch = c.smt.nextID
 	st.heaps = map[string]string{}
@@ -456,7 +470,7 @@ func (c *FnCtx) closedHeap(st *State, t types.Type, term string, depth int) {
 		return
 	}
 	al := c.heapGet(st, "alloc", allocSort)
-	key := al + "|" + term
+	key := fmt.Sprintf("%s|%s@%d", al, term, c.smt.curScope)
 	if depth == 0 {
 		if c.typedSeen[key] {
 			return
@@ -482,10 +496,12 @@ func (c *FnCtx) closedHeap(st *State, t types.Type, term string, depth int) {
 // heapTyped records that a value read from the heap is well typed (integer range, slice shape):
 // the heap only ever holds values produced by well-typed stores.
 func (c *FnCtx) heapTyped(t types.Type, term string) {
-	if c.typedSeen[term] {
+	// remembered per assumption scope: a fact recorded inside a loop body is dropped with that scope
+	key := fmt.Sprintf("%s@%d", term, c.smt.curScope)
+	if c.typedSeen[key] {
 		return
 	}
-	c.typedSeen[term] = true
+	c.typedSeen[key] = true
 	if f := c.typeFacts(t, term); f != "true" {
 		c.smt.assume(f, "")
 	}
